@@ -215,3 +215,14 @@ def _taint_check(ctx: Context, tree: str, f: FuncInfo, call: ast.Call, taint: di
                    "extensions passed to the constructed request cannot rewrite its wire-visible fields" if ok else
                    f"extensions={terms} hands the caller's extensions to Request(), whose constructor lets extensions rewrite {affected} "
                    f"(the 'target' extension overrides the URL target): the {'CONNECT line becomes `CONNECT <target>`' if which == 'connect' else 'absolute-form target is lost'}")
+
+
+_core_run = run
+
+
+def run(ctx: Context) -> None:  # noqa: F811
+    _core_run(ctx)
+    from . import plumb
+
+    ctx.rep.rule('C11.R6', 'proxy-hop configuration: the connection to the proxy gets the proxy origin and the proxy TLS context and never the origin protocol flags (it speaks HTTP/1.1 CONNECT); the tunnelled / SOCKS connection gets the remote origin and the origin flags')
+    plumb.plumbing(ctx, 'C11.R6', ['http1', 'http2', 'proxy_ssl_context', 'ssl_context', 'proxy_origin', 'remote_origin', 'origin'])
